@@ -1,6 +1,6 @@
 SPECIFICATION FairSpec
 CONSTANTS
-  Kinds = {"d", "d2", "ad", "aad", "r", "ar", "dc", "adc", "adx"}
+  Kinds = {"d2", "aad", "ar", "dc", "adc", "adx"}
   MaxLen = 2
   FaultModes = {"ee", "ew", "we", "ww"}
 ACTION_CONSTRAINT StartWhenPolled
